@@ -48,6 +48,48 @@ add("C07", "CH",
     "(lib/fakes.py); descriptors are SimpleNamespace stand-ins. Trusted: CrossHair 0.0.110 + z3 (guarded by a "
     "reachability twin and in-memory mutant canaries each run).")
 
+CLIENT_NOTE = ("Emitted client methods are lifted unmodified from the freshly rendered client.py/async_client.py; message, "
+               "transport, uuid, operation-future and header-encoding objects are pure-Python stand-ins (lib/fakes.py, "
+               "lib/emitted.py); string/list/map values come from small menus selected by symbolic integers. Trusted: "
+               "CrossHair 0.0.110 + z3, guarded per run by reachability twins and in-memory mutant canaries.")
+
+add("C03", "CH (+ concrete table diff)",
+    "CrossHair (z3) on emitted sync/async client methods with recording stand-ins; concrete AST table diff of the emitted gRPC stubs",
+    "Client layer only: for ALL request kinds (message/dict/None) and presence patterns exactly one dispatch on the wrapped "
+    "method of the right RPC with the equivalent message and the caller's options, reply passed through (None for void, "
+    "pager/future wiring), sync == async (CrossHair confirmed over all paths). The stub table (method path, arity, "
+    "serializers) is a concrete diff against the descriptors and is labelled as such.",
+    "DESIGN.md section 5 C03", CLIENT_NOTE + " Everything below _wrapped_methods (serialisation, channel, wire) is outside the claim.")
+
+add("C05", "CH",
+    "CrossHair (z3) on emitted sync/async client methods: kwargs-call vs request-call over all presence patterns",
+    "For ALL presence patterns of flattened parameters and request kinds, and all menu values (incl. falsy-but-set): "
+    "ValueError iff both given and then nothing sent; otherwise the message reaching the transport equals the reference "
+    "message under the wire keys (dotted, repeated, map, reserved names, cross-package requests); sync == async; "
+    "declared parameter order via inspect.signature.",
+    "DESIGN.md section 5 C05", CLIENT_NOTE)
+
+add("C06", "RX+CH+BSTR",
+    "z3 regex language inclusion / capture agreement of the live routing regex vs an AIP-4222 reference; CrossHair on emitted "
+    "header assembly; BSTR on field_headers / FieldHeader.disambiguated",
+    "For every template of a bounded grammar and ALL newline-free values: the emitted routing regex contributes exactly the "
+    "segment AIP-4222 prescribes (unsat of both language differences and of capture disagreement); header assembly in the "
+    "emitted sync/async methods equals the reference resolution (later wins, no header when nothing matches); implicit "
+    "header keys/attribute paths for ALL identifiers within the length bound.",
+    "DESIGN.md section 5 C06",
+    "Templates enumerated from a grammar (36 quick); values symbolic (RX), menus (CH), identifiers <= 22 / dotted <= 3 "
+    "segments (BSTR). URL-encoding inside api_core's to_grpc_metadata is outside the claim. " + CLIENT_NOTE)
+
+add("C18", "CH",
+    "CrossHair (z3): real API.enforce_valid_method_settings on stand-ins vs the AIP-4235 predicate; emitted client methods "
+    "over presence/value patterns of auto-populated fields",
+    "Validation: for ALL settings lists within the bound (selectors existing/missing/duplicate/streaming, field declared "
+    "or not, type, required, format, nested) the validator raises iff AIP-4235 is violated. Population: for ALL "
+    "presence/value patterns the emitted sync/async methods never alter a caller value and populate unset (optional) "
+    "resp. empty (plain) fields with fresh, pairwise different values. Generation path rejects duplicates (concrete).",
+    "DESIGN.md section 5 C18",
+    "<= 2 settings entries quick / 3 thorough, <= 2 fields per entry; yaml.dump error rendering stubbed. " + CLIENT_NOTE)
+
 PENDING = {}
 
 
